@@ -21,6 +21,11 @@ def load():
         for m in json.load(open(f)):
             m["source"] = os.path.basename(f)
             out.append(m)
+    for f in sorted(glob.glob(os.path.join(VERIF, "seeded", "*", "meta.json"))):
+        meta = json.load(open(f))
+        d = os.path.basename(os.path.dirname(f))
+        out.append({"id": "seeded-" + d, "property": meta["property"], "properties": meta.get("properties"),
+                    "patch": os.path.join("seeded", d, "patch.diff"), "suite": "SURVIVES (independent sub-agent)", "source": "seeded"})
     return out
 
 def run_one(m):
@@ -30,7 +35,15 @@ def run_one(m):
         dst = os.path.join(tmp, "repo")
         subprocess.check_call(["rsync", "-a", "--exclude", ".git", "--exclude", "docs", "--exclude", "_examples",
                                "--exclude", "tools", REPO + "/", dst + "/"])
-        if m.get("revert_commit"):
+        if m.get("patch"):
+            diff = open(os.path.join(VERIF, m["patch"])).read()
+            pr = subprocess.run(["patch", "-p1", "-s"], cwd=dst, input=diff, capture_output=True, text=True)
+            if pr.returncode != 0:
+                res["status"] = "SKIP-ANCHOR"
+                res["detail"] = "patch does not apply: %s" % pr.stdout[-200:]
+                return res
+            edits = []
+        elif m.get("revert_commit"):
             diff = subprocess.run(["git", "-C", REPO, "show", "--format=", m["revert_commit"]], capture_output=True, text=True).stdout
             pr = subprocess.run(["patch", "-R", "-p1", "-s"], cwd=dst, input=diff, capture_output=True, text=True)
             if pr.returncode != 0:
